@@ -88,6 +88,7 @@ class StoreFamily:
     def gen(self, rng, idx, opts):
         coll = rng.choice(['tasks', 'procs', 'messages', 'models', 'events'])
         db, ops, exp, nid = {}, [], [], 0
+        gone = []
         for _ in range(opts.get('nops', 60)):
             c = rng.random()
             if c < 0.3 or not db:
@@ -103,8 +104,18 @@ class StoreFamily:
                 db[k] = x
                 ops.append(dict(op='store', coll=coll, call='update', arg=x))
                 exp.append(None)
+            elif c < 0.43:
+                # update of an id that does not exist (never created, or deleted before): changes nothing
+                x = rec(coll, rng, nid + 2000)
+                x['id'] = rng.choice(gone + [x['id'] + 'never']) if gone else x['id'] + 'never'
+                if x['id'] not in db:
+                    ops.append(dict(op='store', coll=coll, call='update', arg=x))
+                    exp.append(None)
+                    ops.append(dict(op='store', coll=coll, call='exists', arg=x['id']))
+                    exp.append(('exists', False))
             elif c < 0.47:
                 k = rng.choice(list(db))
+                gone.append(k)
                 del db[k]
                 ops.append(dict(op='store', coll=coll, call='delete', arg=k))
                 exp.append(None)
